@@ -400,7 +400,7 @@ func init() {
 		})
 		// the real expiry loop on a database nobody writes to: a document that crosses the cut-off only because time passes
 		// is removed by a later tick (the ticks are granted by hand; the only wall-clock quantity is the 1 s interval of the
-		// index, the removal itself is awaited for up to 20 s)
+		// index, the removal itself is awaited for up to 90 s of repeated ticks)
 		{
 			w := world.New()
 			cCreateIndex("d", "c", bD("t", int32(1)), idxOpt{expire: i32(1)}).Do(w)
@@ -414,7 +414,7 @@ func init() {
 				time.Sleep(100 * time.Millisecond)
 			}
 			gone := false
-			for deadline := time.Now().Add(20 * time.Second); time.Now().Before(deadline) && !gone; {
+			for deadline := time.Now().Add(90 * time.Second); time.Now().Before(deadline) && !gone; {
 				lungo.VerifGrantTick(w.Engine)
 				time.Sleep(200 * time.Millisecond)
 				n, _ := w.C("d", "c").CountDocuments(w.Ctx, bD("_id", "ages"))
@@ -422,7 +422,7 @@ func init() {
 			}
 			n2, _ := w.C("d", "c").CountDocuments(w.Ctx, bD("_id", "stays"))
 			if !gone {
-				r.Violation("expiry-loop:aged-document-kept", "a document whose date became older than the 1 s interval of its TTL index while nothing was written is still there after 20 s of ticks of the expiry loop", map[string]interface{}{"case": "real loop, idle database"})
+				r.Violation("expiry-loop:aged-document-kept", "a document whose date became older than the 1 s interval of its TTL index while nothing was written is still there after 90 s of ticks of the expiry loop", map[string]interface{}{"case": "real loop, idle database"})
 			}
 			if n2 != 1 {
 				r.Violation("expiry-loop:live-document-removed", "the expiry loop removed a document dated one hour ahead", map[string]interface{}{"case": "real loop, idle database"})
